@@ -50,7 +50,7 @@ Proof.
   intros H F. pose proof (e_lib _ (iE _ H) l) as K. unfold lib_ok in K. cbv zeta in K. rewrite F in K. tauto.
 Qed.
 
-Lemma fail_stable_step s tc l : Inv s -> ist (libs s l) = DoneFail -> ist (libs (step s tc) l) = DoneFail.
+Lemma fail_stable_step s tc l : Inv s -> ist (libs s l) = DoneFail -> ist (libs (cstep s tc) l) = DoneFail.
 Proof.
   intros H F. destruct (fail_facts s l H F) as (C & O & Sw). destruct tc as [t c].
   ustep. cbv beta iota zeta. destruct (t <? nthr s) eqn:Ht; cbn [negb]; [|exact F].
@@ -70,8 +70,9 @@ Theorem failed_init_is_final n sched1 sched2 l :
   let s := run n (sched1 ++ sched2) in
   ist (libs s l) = DoneFail /\ org (libs s l) = false /\ switched (libs s l) = false.
 Proof.
-  intros F s. assert (E : s = fold_left step sched2 (run n sched1)) by (unfold s, run; apply fold_left_app).
-  assert (G : forall sch st, Inv st -> ist (libs st l) = DoneFail -> ist (libs (fold_left step sch st) l) = DoneFail).
+  intros F s. assert (E : s = fold_left cstep sched2 (run n sched1)).
+  { unfold s. rewrite (proj1 (run_cstep n (sched1 ++ sched2))), (proj1 (run_cstep n sched1)). apply fold_left_app. }
+  assert (G : forall sch st, Inv st -> ist (libs st l) = DoneFail -> ist (libs (fold_left cstep sch st) l) = DoneFail).
   { induction sch as [| tc sch IH]; intros st I X; cbn; [exact X|].
     apply IH; [apply step_inv; exact I | apply fail_stable_step; assumption]. }
   pose proof (G sched2 (run n sched1) (run_inv n sched1) F) as F'. rewrite <- E in F'.
@@ -81,7 +82,7 @@ Qed.
 Theorem failed_init_never_runs_extern n sched l t c t' :
   let s := run n sched in
   ist (libs s l) = DoneFail ->
-  In (l, PInPy) (stacks (step s (t, c)) t') -> In (l, PInPy) (stacks s t').
+  In (l, PInPy) (stacks (cstep s (t, c)) t') -> In (l, PInPy) (stacks s t').
 Proof.
   intros s F. destruct (fail_facts s l (run_inv n sched) F) as (C & O & Sw).
   destruct (Nat.eqb_spec t' t); [subst t' | rewrite step_other by assumption; auto].
@@ -98,7 +99,7 @@ Qed.
 Theorem failed_init_returns_zero n sched l t c rest :
   let s := run n sched in
   ist (libs s l) = DoneFail -> (t <? nthr s) = true -> stacks s t = (l, PRet) :: rest ->
-  stacks (step s (t, c)) t = rest /\ zeros (step s (t, c)) l = S (zeros s l).
+  stacks (cstep s (t, c)) t = rest /\ zeros (cstep s (t, c)) l = S (zeros s l).
 Proof.
   intros s F Ht Hst. destruct (fail_facts s l (run_inv n sched) F) as (C & O & Sw).
   ustep. cbv beta iota zeta. rewrite Ht, Hst. cbn [negb]. rewrite O. simp_state.
@@ -114,11 +115,11 @@ Proof. intros H. apply (f_equal (@length A)) in H. cbn in H. lia. Qed.
 Lemma neq_cons2 {A} (x y : A) l : x :: y :: l <> y :: l.
 Proof. intros H. apply (f_equal (@length A)) in H. cbn in H. lia. Qed.
 
-Lemma enabled_top s t l p rest : (t <? nthr s) = true -> stacks s t = (l, p) :: rest ->
+Lemma enabled_top s t l p rest : gil s = None -> (t <? nthr s) = true -> stacks s t = (l, p) :: rest ->
   (p = PSpin -> spin s = None) -> (p = PCas1 -> cas (libs s l) = None) ->
   (p = PLock -> mutex_free s l t = true) -> enabled s t.
 Proof.
-  intros Ht Hst Hs Hc Hl. exists COk. ustep. cbv beta iota zeta. rewrite Ht, Hst. cbn [negb].
+  intros G Ht Hst Hs Hc Hl. exists COk. rewrite (step_cstep s _ G). ustep. cbv beta iota zeta. rewrite Ht, Hst. cbn [negb].
   destruct p; try rewrite (Hs eq_refl); try rewrite (Hc eq_refl); try rewrite (Hl eq_refl);
     split_ifs; simp_state; split_ifs; simp_state; rewrite ?updf_same;
     try (intros X; inversion X; fail); try apply neq_cons; try (intros X; symmetry in X; revert X; apply neq_cons).
@@ -147,6 +148,7 @@ Theorem no_deadlock_one_library n sched l0 :
   single s l0 -> (exists t, busy s t = true) -> exists t, t < nthr s /\ enabled s t.
 Proof.
   intros s Sg (t & Bt). pose proof (run_inv n sched) as [A B C D E]. fold s in A, B, C, D, E.
+  pose proof (proj2 (run_cstep n sched)) as GN. fold s in GN.
   assert (LT : forall u, stacks s u <> [] -> (u <? nthr s) = true).
   { intros u Hu. apply Nat.ltb_lt. destruct (Nat.lt_ge_cases u (nthr s)); [assumption|].
     exfalso. apply Hu. apply (a_idle s A). assumption. }
@@ -154,17 +156,17 @@ Proof.
   { pose proof (b_holder s B u Sp) as T. destruct (stacks s u) as [| [l p] rest] eqn:Hu; [discriminate|].
     cbn in T. exists u. assert (Lu : (u <? nthr s) = true) by (apply LT; rewrite Hu; discriminate).
     split; [apply Nat.ltb_lt; exact Lu|].
-    apply (enabled_top s u l p rest Lu Hu); intros ->; discriminate. }
+    apply (enabled_top s u l p rest GN Lu Hu); intros ->; discriminate. }
   destruct (cas (libs s l0)) as [u|] eqn:Cs.
   { destruct (c_holder s C l0 u Cs) as (p & rest & Hu & Cp). exists u.
     assert (Lu : (u <? nthr s) = true) by (apply LT; rewrite Hu; discriminate).
     split; [apply Nat.ltb_lt; exact Lu|].
-    apply (enabled_top s u l0 p rest Lu Hu); intros ->; discriminate. }
+    apply (enabled_top s u l0 p rest GN Lu Hu); intros ->; discriminate. }
   (* no CAS cell is held *)
   assert (Free : forall u l p rest, stacks s u = (l, p) :: rest ->
                  (p = PLock -> mutex_free s l u = true) -> u < nthr s /\ enabled s u).
   { intros u l p rest Hu Hl. assert (Lu : (u <? nthr s) = true) by (apply LT; rewrite Hu; discriminate).
-    split; [apply Nat.ltb_lt; exact Lu|]. apply (enabled_top s u l p rest Lu Hu); auto.
+    split; [apply Nat.ltb_lt; exact Lu|]. apply (enabled_top s u l p rest GN Lu Hu); auto.
     intros ->. rewrite <- (Sg u (l, PCas1) ltac:(rewrite Hu; left; reflexivity)) in Cs. exact Cs. }
   unfold busy in Bt. destruct (stacks s t) as [| [l p] rest] eqn:Ht; [discriminate|].
   assert (El : l = l0) by (apply (Sg t (l, p)); rewrite Ht; left; reflexivity). subst l.
@@ -192,7 +194,7 @@ Definition deadlock_schedule : list (nat * choice) :=
 
 Theorem two_libraries_deadlock :
   let s := run 2 deadlock_schedule in
-  busy s 0 = true /\ busy s 1 = true /\ forall t c, step s (t, c) = s.
+  busy s 0 = true /\ busy s 1 = true /\ forall t c, cstep s (t, c) = s.
 Proof.
   set (s := run 2 deadlock_schedule).
   assert (S0 : stacks s 0 = [(1, PLock); (0, PInitRun)]) by (vm_compute; reflexivity).
@@ -228,7 +230,7 @@ Inductive effect (old new : list frame) : Prop :=
 | EffPop : forall f, old = f :: new -> effect old new
 | EffDown : forall l p p' r, old = (l, p) :: r -> new = (l, p') :: r -> rank p' < rank p -> effect old new.
 
-Theorem bounded_steps s t c : effect (stacks s t) (stacks (step s (t, c)) t).
+Theorem bounded_steps s t c : effect (stacks s t) (stacks (cstep s (t, c)) t).
 Proof.
   ustep. destruct (t <? nthr s) eqn:Ht; cbn [negb]; [|apply EffNone; reflexivity].
   destruct (stacks s t) as [| [l p] rest] eqn:Hst.
@@ -250,7 +252,7 @@ Definition plainpc (p : pc) : bool :=
 Theorem failed_call_progress n sched l t c p rest :
   let s := run n sched in
   ist (libs s l) = DoneFail -> stacks s t = (l, p) :: rest -> plainpc p = true ->
-  let s' := step s (t, c) in
+  let s' := cstep s (t, c) in
   stacks s' t = stacks s t \/
   (exists p', stacks s' t = (l, p') :: rest /\ rank p' < rank p /\ plainpc p' = true) \/
   (p = PRet /\ stacks s' t = rest /\ zeros s' l = S (zeros s l)).
@@ -262,4 +264,96 @@ Proof.
     try (left; reflexivity);
     try (right; left; eexists; split; [reflexivity | split; [cbn; lia | reflexivity]]);
     try (right; right; repeat split; reflexivity).
+Qed.
+
+(* ------------------------------------------------------------------ the GIL and [step] *)
+Theorem gil_never_kept n sched : gil (run n sched) = None.
+Proof. apply run_cstep. Qed.
+
+(* libraries that do not call into each other: every thread's nested calls stay in one library *)
+Definition independent (s : state) : Prop :=
+  forall t l p r f, stacks s t = (l, p) :: r -> In f r -> fst f = l.
+
+Theorem no_deadlock_independent n sched :
+  let s := run n sched in
+  independent s -> (exists t, busy s t = true) -> exists t, t < nthr s /\ enabled s t.
+Proof.
+  intros s Ind (t & Bt). pose proof (run_inv n sched) as [A B C D E]. fold s in A, B, C, D, E.
+  pose proof (proj2 (run_cstep n sched)) as GN. fold s in GN.
+  assert (LT : forall u, stacks s u <> [] -> (u <? nthr s) = true).
+  { intros u Hu. apply Nat.ltb_lt. destruct (Nat.lt_ge_cases u (nthr s)); [assumption|].
+    exfalso. apply Hu. apply (a_idle s A). assumption. }
+  destruct (spin s) as [u|] eqn:Sp.
+  { pose proof (b_holder s B u Sp) as T. destruct (stacks s u) as [| [l p] rest] eqn:Hu; [discriminate|].
+    cbn in T. exists u. assert (Lu : (u <? nthr s) = true) by (apply LT; rewrite Hu; discriminate).
+    split; [apply Nat.ltb_lt; exact Lu|].
+    apply (enabled_top s u l p rest GN Lu Hu); intros ->; discriminate. }
+  (* the slot is free.  A thread whose innermost call is not waiting for a mutex can move, unless
+     it waits for a CAS cell, whose holder can move *)
+  assert (Free : forall u l p rest, stacks s u = (l, p) :: rest ->
+                 (p = PLock -> mutex_free s l u = true) -> exists v, v < nthr s /\ enabled s v).
+  { intros u l p rest Hu Hl. assert (Lu : (u <? nthr s) = true) by (apply LT; rewrite Hu; discriminate).
+    destruct (cas (libs s l)) as [v|] eqn:Cs.
+    - destruct (c_holder s C l v Cs) as (q & r & Hv & Cq). exists v.
+      assert (Lv : (v <? nthr s) = true) by (apply LT; rewrite Hv; discriminate).
+      split; [apply Nat.ltb_lt; exact Lv|].
+      apply (enabled_top s v l q r GN Lv Hv); intros ->; discriminate.
+    - exists u. split; [apply Nat.ltb_lt; exact Lu|]. apply (enabled_top s u l p rest GN Lu Hu); auto. }
+  unfold busy in Bt. destruct (stacks s t) as [| [l p] rest] eqn:Ht; [discriminate|].
+  destruct (mutex_free s l t) eqn:F.
+  { apply (Free t l p rest Ht). auto. }
+  destruct (mutex_free_false s l t F) as (u & Lu & Nu & Hu).
+  destruct (stacks s u) as [| [l' q] rest'] eqn:Su; [discriminate|].
+  assert (El : l' = l).
+  { unfold holds_lib in Hu. apply existsb_exists in Hu. destruct Hu as (f & I & Hf).
+    apply andb_true_iff in Hf. destruct Hf as (Hf & _). apply Nat.eqb_eq in Hf.
+    destruct I as [<- | I]; [exact Hf|]. rewrite <- (Ind u l' q rest' f Su I). exact Hf. }
+  subst l'. apply (Free u l q rest' Su). intros _.
+  destruct (mutex_free s l u) eqn:Fu; [reflexivity|]. exfalso.
+  destruct (mutex_free_false s l u Fu) as (v & _ & Nv & Hv).
+  apply Nv. apply (D v u l); [exact Hv | rewrite Su; exact Hu].
+Qed.
+
+(* the statements about one step, for the real [step] *)
+Theorem failed_init_never_runs_extern_step n sched l t c t' :
+  let s := run n sched in
+  ist (libs s l) = DoneFail ->
+  In (l, PInPy) (stacks (step s (t, c)) t') -> In (l, PInPy) (stacks s t').
+Proof.
+  intros s F. unfold s. rewrite (step_cstep _ _ (gil_never_kept n sched)).
+  apply failed_init_never_runs_extern. exact F.
+Qed.
+
+Theorem failed_init_returns_zero_step n sched l t c rest :
+  let s := run n sched in
+  ist (libs s l) = DoneFail -> (t <? nthr s) = true -> stacks s t = (l, PRet) :: rest ->
+  stacks (step s (t, c)) t = rest /\ zeros (step s (t, c)) l = S (zeros s l).
+Proof.
+  intros s F Ht Hst. unfold s. rewrite (step_cstep _ _ (gil_never_kept n sched)).
+  apply failed_init_returns_zero; assumption.
+Qed.
+
+Theorem bounded_steps_step s t c : effect (stacks s t) (stacks (step s (t, c)) t).
+Proof.
+  destruct (step_cases s (t, c)) as [-> | ->]; [apply EffNone; reflexivity | apply bounded_steps].
+Qed.
+
+Theorem failed_call_progress_step n sched l t c p rest :
+  let s := run n sched in
+  ist (libs s l) = DoneFail -> stacks s t = (l, p) :: rest -> plainpc p = true ->
+  let s' := step s (t, c) in
+  stacks s' t = stacks s t \/
+  (exists p', stacks s' t = (l, p') :: rest /\ rank p' < rank p /\ plainpc p' = true) \/
+  (p = PRet /\ stacks s' t = rest /\ zeros s' l = S (zeros s l)).
+Proof.
+  intros s F Hst Pp. cbv zeta. unfold s. rewrite (step_cstep _ _ (gil_never_kept n sched)).
+  apply failed_call_progress; assumption.
+Qed.
+
+Theorem two_libraries_deadlock_step :
+  let s := run 2 deadlock_schedule in
+  busy s 0 = true /\ busy s 1 = true /\ forall t c, step s (t, c) = s.
+Proof.
+  destruct two_libraries_deadlock as (B0 & B1 & H). repeat split; try assumption.
+  intros t c. rewrite (step_cstep _ _ (gil_never_kept 2 deadlock_schedule)). apply H.
 Qed.
